@@ -375,9 +375,11 @@ func emit(c *Config, kind string, ntrees int, ops []op) {
 	}()
 	var res result
 	hang := false
+	timer := time.NewTimer(3 * time.Second)
 	select {
 	case res = <-ch:
-	case <-time.After(3 * time.Second):
+		timer.Stop()
+	case <-timer.C:
 		// an operation does not terminate (a cycle in the links): report it and stop - the runaway
 		// goroutine cannot be killed and may eat all memory (Erase appends while it iterates)
 		res = result{obs: []Sx{T("o", T("hang"))}, w: &world{}}
@@ -695,6 +697,7 @@ func main() {
 	} else {
 		exhaustive(c, 6, 4)
 	}
+	sharedFamilies(c)
 	for i := c.Count(1500, 12000); i > 0; i-- {
 		g := random(c)
 		emit(c, fmt.Sprintf("rnd%d", g.ntrees), g.ntrees, g.ops)
